@@ -82,6 +82,9 @@ def tokScan (m : Nat) (tok : Bytes) : List TokEnt → Option Bytes
 `xmits` = `session->lg_xmit` (list order), `isReq` = `COAP_PDU_IS_REQUEST(pdu)`, `tok` = `pdu->actual_token` -/
 def checkUpdateToken (crcvs xmits : List TokEnt) (isReq : Bool) (tok : Bytes) : Bytes :=
   let m := stateTokenBase (decodeVar8 tok)
+  -- fix f4071ae: `if (STATE_TOKEN_RETRY(token_full) == 0) return;` — every token libcoap generates for a block transfer
+  -- carries a retry count ≥ 1; a token without one is the application's own and is left alone
+  if decodeVar8 tok / 2 ^ 44 = 0 then tok else
   match tokScan m tok crcvs with
   | some t => t
   | none =>
